@@ -33,12 +33,14 @@ def hits_of(loc, nc, out):
     return False
 
 
-def run_query(data, loc, text, mode, default=None):
+def run_query(data, loc, text, mode, default=None, proc=None):
     """mode: 'must' | 'opt' | 'exists'.
 
     Returns dict(out = 'ok' | 'unmatched' | 'yperr' | 'crash:<Exc>', hits, n, virt, exists, msg).
+    proc: a Processor to reuse (a query's answer must not depend on what the same Processor was asked before).
     """
-    proc = Processor(absdoc.LOG, data)
+    if proc is None:
+        proc = Processor(absdoc.LOG, data)
     hits = []
     n = 0
     virt = False
